@@ -181,14 +181,19 @@ def _u10_from_bulk_rate_point(
         )
 
         try:
+            # To note: all arguments are passed by position. If keyword arguments
+            # are used for a call inside a try block the compiled code always
+            # ends up in the except branch (and we return NaN for every input).
             u10 = numba_newton_raphson(
                 _u10_iteration_function,
                 u10,
                 args,
                 (0, np.inf),
-                atol=atol,
-                rtol=rtol,
-                numerical_stepsize=numerical_stepsize,
+                100,  # max_iterations (default)
+                True,  # aitken_acceleration (default)
+                atol,
+                rtol,
+                numerical_stepsize,
             )
         except:
             u10 = np.nan
